@@ -1810,15 +1810,29 @@ class Generator:
         initialiser, so this is the same program; it needs no place in the generated file's module tree.  (Before this rule
         a literal replaced by a new named constant - an everyday edit, and what several seeded changes contain - made the
         unit UNDECIDED.)  `static` items are left alone (they have an address)."""
-        _, toks = self.src(file)
-        ci = _code_index(toks)
-        top = {it[1]: it for it in _items_in(toks, ci, 0, len(ci)) if it[0] == "const"}
+        # constants of this file, and - for names this file imports with a `use` - of the module files above it
+        # (`<dir>/mod.rs`, `<parent>/mod.rs`, the crate's `lib.rs`): a constant added next to BUFFER_SIZE in connection/mod.rs and
+        # imported by read_connection.rs is as much a value as a local one (seed C17h)
+        text0, toks0 = self.src(file)
+        used_names = set(re.findall(r"\b[A-Z][A-Z0-9_]+\b", " ".join(re.findall(r"\buse\s+[^;]+;", text0))))
+        cands = [file]
+        d = os.path.dirname(file)
+        for up in (os.path.join(d, "mod.rs"), os.path.join(os.path.dirname(d), "mod.rs"), os.path.join(file.split("/src/")[0], "src", "lib.rs") if "/src/" in file else None):
+            if up and up != file and up not in cands and os.path.exists(os.path.join(self.repo, up)):
+                cands.append(up)
+        top = {}
+        for cf in cands:
+            _, ctoks = self.src(cf)
+            cci = _code_index(ctoks)
+            for it in _items_in(ctoks, cci, 0, len(cci)):
+                if it[0] == "const" and it[1] not in top and (cf == file or it[1] in used_names):
+                    top[it[1]] = (it, ctoks, cci)
 
         def known(nm):
             return re.search(r"\b(const|static)\s+(mut\s+)?" + re.escape(nm) + r"\b", self._template_text) is not None
 
         def expansion(nm, depth):
-            it = top[nm]
+            it, toks, ci = top[nm]
             a, b = ci[it[2]], ci[it[3] - 1] + 1
             code_t = [t for t in toks[a:b] if t.kind not in ("ws", "lcomment", "bcomment")]
             texts = [t.text for t in code_t]
